@@ -57,7 +57,7 @@ def verdict (st : St) (d : DState) : String :=
   let isB := isBefore d.s st.s0 w
   let isA := isAfter d.s fin w
   let v := if isB && isA then "same" else if isB then "before" else if isA then "after" else "neither"
-  v ++ (if loadable d.s (liveLids d.s fin w) then " loadable" else " dangling")
+  v ++ (if reachableOk d.s fin w then " loadable" else " dangling")
 
 def minutes (s : String) : List Int := (natList s).map (fun (n : Nat) => Int.ofNat n)
 
